@@ -72,7 +72,7 @@ class Pair:
     CHOICE_KEYS = ("order=", "pick=", "sample=", "part=", "owned=", "in=")
     # white-box listings the model does not mirror (they feed the property oracle only)
     IMPL_ONLY = ("wb.keys", "wb.frags", "c.scanall", "c.commands", "c.rawcmd", "c.sync", "c.add", "c.stop", "c.update",
-                 "c.balance", "bg.compact", "bg.janitor", "wb.stats", "wb.mergex", "c.lockrace", "c.atomrace", "c.incrf", "c.atomxf", "c.getf", "rt.dump", "rt.client", "c.converge", "c.rejoin", "c.balanceall", "r.put", "c.kill", "c.settle", "wb.owners", "wb.slab", "c.rawerr", "c.rawscan", "wb.wait", "wb.baks", "c.rawseq", "c.addconv", "c.stopconv", "c.inter", "c.rawhold", "c.rawdrop", "c.rawint", "c.wait", "c.rawframe", "rangestop", "c.badrouting", "c.badfragment")
+                 "c.balance", "bg.compact", "bg.janitor", "wb.stats", "wb.mergex", "c.lockrace", "c.atomrace", "c.incrf", "c.atomxf", "c.getf", "rt.dump", "rt.client", "c.converge", "c.rejoin", "c.balanceall", "r.put", "c.kill", "c.settle", "wb.owners", "wb.slab", "c.rawerr", "c.rawscan", "wb.wait", "wb.baks", "c.rawseq", "c.addconv", "c.stopconv", "c.inter", "c.rawhold", "c.rawdrop", "c.rawquit", "c.rawint", "c.wait", "c.rawframe", "rangestop", "c.badrouting", "c.badfragment")
 
     def __init__(self, drv, model, env=None):
         self.drv_path, self.model_path, self.env = drv, model, env
